@@ -46,17 +46,18 @@ func newDataStoreSet(l lane.Lane, basePath string, phook *DispatchHook) *dataSto
 		filepath.WalkDir(dir, func(path string, d fs.DirEntry, err error) error {
 			if !d.IsDir() {
 				if strings.HasPrefix(d.Name(), fileBase) {
-					n64, parseErr := strconv.ParseInt(d.Name()[len(fileBase):], 10, 32)
+					suffix := d.Name()[len(fileBase):]
+					n64, parseErr := strconv.ParseInt(suffix, 10, 32)
 					n := int(n64)
-					if parseErr == nil {
-						// found a data store file - load it
-						if n != 0 {
-							dss.createDbUnlocked(n)
-						}
-						dsc := dss.dbs[n].newDataStoreCommand()
-						loadErr := dsc.load(l, path)
-						if loadErr != nil {
-							return loadErr
+					if parseErr == nil && strconv.Itoa(n) == suffix {
+						// found a data store file - load it, unless its index is not one of ours
+						// (<base>.db16, <base>.db-1 and the like are somebody else's files)
+						if ds, valid := dss.createDbUnlocked(n); valid {
+							dsc := ds.newDataStoreCommand()
+							if loadErr := dsc.load(l, path); loadErr != nil {
+								// reported by load; the other data stores are still loaded
+								return nil
+							}
 						}
 					}
 				}
